@@ -78,16 +78,38 @@ fn cmd_c14(req: &Value) -> Value {
     if req.get("compile").and_then(|v| v.as_bool()).unwrap_or(true) {
         let mut a = serde_json::Map::new();
         let mut b = serde_json::Map::new();
+        let mut nondet: Vec<Value> = Vec::new();
         if let Some(ts) = req.get("targets").and_then(|v| v.as_array()) {
             for t in ts {
                 if let Some(t) = t.as_str() {
-                    a.insert(t.to_string(), compile_to(src, t));
-                    b.insert(t.to_string(), compile_to(&fmt, t));
+                    let x = compile_to(src, t);
+                    let y = compile_to(&fmt, t);
+                    if x != y {
+                        // the compiler itself is not a function of the AST (hash-ordered maps: C11's subject):
+                        // the two sources agree if their *sets* of observed outputs meet
+                        let mut xs = vec![x.clone()];
+                        let mut ys = vec![y.clone()];
+                        let mut met = false;
+                        for _ in 0..12 {
+                            xs.push(compile_to(src, t));
+                            ys.push(compile_to(&fmt, t));
+                            if xs.iter().any(|v| ys.contains(v)) {
+                                met = true;
+                                break;
+                            }
+                        }
+                        if met {
+                            nondet.push(json!(t));
+                        }
+                    }
+                    a.insert(t.to_string(), x);
+                    b.insert(t.to_string(), y);
                 }
             }
         }
         out["sql"] = Value::Object(a);
         out["sql2"] = Value::Object(b);
+        out["sql_nondet"] = Value::Array(nondet);
     }
     out
 }
